@@ -296,6 +296,9 @@ OPS = {
 CORE = ["push_new", "alias", "fill8", "remove0", "pop", "slice_tl", "set_dup", "box", "box_xs", "bs_get", "n_push", "n_get",
         "hm_put", "hm_get", "hm_self", "hm_rm", "hm_keys", "lp_push5", "mk", "g_set"]
 
+CORE_THOROUGH = CORE + ["push_s", "rm_b", "n_set", "n_rm", "bs_push", "bs_set", "hd_loop", "tup_get", "un_match", "hm_putv", "hm_gets", "hm_clear", "hm_new",
+                        "hm_many", "lp_get", "g_get", "mapf", "cat_loop", "grow", "early"]
+
 # statements that had to be left out, with the reason (so the gap is visible, not silent)
 DROPPED = {
     "closures (nested fn capturing locals)": "native backend emits a reference to an undeclared C function (use of undeclared identifier 'nl_get'): C compile error, not a run",
@@ -317,7 +320,7 @@ def t_sequences(tier, ops=None):
     if tier == "quick":
         seqs += list(itertools.product(core[:12], repeat=3))
     else:
-        seqs += list(itertools.product(core, repeat=3))
+        seqs += list(itertools.product([x for x in CORE_THOROUGH if x in names], repeat=3))
     return seqs
 
 
@@ -460,6 +463,22 @@ def x_cases(tier):
         nm = "x_%d" % k
         k += 1
         out.append((nm, "fn %s() -> int {\n%s\n    return t\n}\nshadow %s { assert true }\n" % (nm, "\n".join(body), nm), "string operations"))
+    # integer helpers on the boundary pool (abs/min/max/int_to_string/string_to_int: negation and formatting of INT64_MIN ...);
+    # the values go through an array so that the C compiler cannot fold the arithmetic
+    body = ["    let vs: array<int> = [0, 1, -1, 9223372036854775807, -9223372036854775807, -9223372036854775808]",
+            "    let mut t: int = 0",
+            "    for i in (range 0 (array_length vs)) {",
+            "        let a: int = (at vs i)",
+            "        set t (+ t (str_length (int_to_string (abs a))))",
+            "        set t (+ t (str_length (int_to_string (string_to_int (int_to_string a)))))",
+            "        for j in (range 0 (array_length vs)) {",
+            "            let b: int = (at vs j)",
+            "            set t (+ t (str_length (int_to_string (min a b))))",
+            "            set t (+ t (str_length (int_to_string (max a b))))",
+            "            set t (+ t (str_length (int_to_string (+ (* a b) (- a b)))))",
+            "        }",
+            "    }"]
+    out.append(("x_num", "fn x_num() -> int {\n%s\n    return t\n}\nshadow x_num { assert true }\n" % "\n".join(body), "integer helpers"))
     return out
 
 
